@@ -93,9 +93,134 @@ static int scenario (const char *name) {
 	return 0;
 }
 
+/* ---- more finite scenarios (watchdog = hang = FAIL) ----
+ * two       two lock objects are independent: holding A for writing, B can be taken for writing and released;
+ *           a trylock on B from another thread fails only while B itself is held
+ * tryhold   trylock semantics against a real holder in another thread: fails (promptly, never blocks) exactly
+ *           when the mode is not grantable, succeeds otherwise
+ * readers K K threads hold the lock for reading at the same instant; a writer trylock fails; after all released
+ *           it succeeds */
+static int expect_fail;
+#define EXPECT(c, what) do { if (!(c)) { printf ("FAIL %s\n", what); fflush (stdout); _exit (1); } } while (0)
+
+static PRWLock *la, *lb;
+static int res_r, res_w;
+static void *try_both (void *arg) {
+	PRWLock *l = arg;
+	res_r = p_rwlock_reader_trylock (l) ? 1 : 0; if (res_r) p_rwlock_reader_unlock (l);
+	res_w = p_rwlock_writer_trylock (l) ? 1 : 0; if (res_w) p_rwlock_writer_unlock (l);
+	return NULL;
+}
+static void *try_r_hold (void *arg) {   /* reader trylock, keep it until told */
+	PRWLock *l = arg;
+	res_r = p_rwlock_reader_trylock (l) ? 1 : 0;
+	__atomic_store_n (&b_in, 1, __ATOMIC_SEQ_CST);
+	while (!__atomic_load_n (&w_started, __ATOMIC_SEQ_CST)) usleep (1000);
+	if (res_r) p_rwlock_reader_unlock (l);
+	return NULL;
+}
+static void in_thread (void *(*fn) (void *), void *arg) { pthread_t t; pthread_create (&t, NULL, fn, arg); pthread_join (t, NULL); }
+
+static int scen_two (void) {
+	signal (SIGALRM, on_alarm); alarm (10);
+	la = p_rwlock_new (); lb = p_rwlock_new ();
+	EXPECT (la && lb, "new");
+	EXPECT (la != lb, "two p_rwlock_new calls returned the same object");
+	EXPECT (p_rwlock_writer_lock (la), "wlock(A)");
+	in_thread (try_both, lb);
+	EXPECT (res_r == 1 && res_w == 1, "trylock on lock B failed although only lock A is held (the two objects are not independent)");
+	EXPECT (p_rwlock_writer_lock (lb), "wlock(B) returned FALSE while only lock A is held");
+	in_thread (try_both, la);
+	EXPECT (res_r == 0 && res_w == 0, "trylock on A granted while A is write-held");
+	EXPECT (p_rwlock_writer_unlock (lb), "wunlock(B)");
+	in_thread (try_both, la);
+	EXPECT (res_r == 0 && res_w == 0, "releasing lock B released lock A (trylock on A granted while A is write-held)");
+	in_thread (try_both, lb);
+	EXPECT (res_r == 1 && res_w == 1, "trylock on B failed after B was released");
+	EXPECT (p_rwlock_writer_unlock (la), "wunlock(A)");
+	EXPECT (p_rwlock_reader_lock (la), "rlock(A)");
+	EXPECT (p_rwlock_writer_lock (lb), "wlock(B) while A is read-held");
+	in_thread (try_both, la);
+	EXPECT (res_r == 1 && res_w == 0, "A read-held: reader trylock must succeed, writer trylock must fail");
+	EXPECT (p_rwlock_writer_unlock (lb) && p_rwlock_reader_unlock (la), "unlock");
+	p_rwlock_free (la);
+	EXPECT (p_rwlock_writer_trylock (lb) && p_rwlock_writer_unlock (lb), "lock B unusable after lock A was freed");
+	p_rwlock_free (lb);
+	puts ("ok scenario two");
+	return 0;
+}
+
+static int scen_tryhold (void) {
+	pthread_t t;
+	signal (SIGALRM, on_alarm); alarm (10);
+	lk = p_rwlock_new ();
+	EXPECT (lk, "new");
+	EXPECT (p_rwlock_writer_lock (lk), "wlock");
+	in_thread (try_both, lk);
+	EXPECT (res_r == 0, "reader trylock granted while a writer holds");
+	EXPECT (res_w == 0, "writer trylock granted while a writer holds");
+	EXPECT (p_rwlock_writer_unlock (lk), "wunlock");
+	EXPECT (p_rwlock_reader_lock (lk), "rlock");
+	in_thread (try_both, lk);
+	EXPECT (res_r == 1, "reader trylock failed while only a reader holds (readers share)");
+	EXPECT (res_w == 0, "writer trylock granted while a reader holds");
+	/* a second reader (by trylock, another thread) holds together with us */
+	b_in = 0; w_started = 0;
+	pthread_create (&t, NULL, try_r_hold, lk);
+	while (!__atomic_load_n (&b_in, __ATOMIC_SEQ_CST)) usleep (1000);
+	EXPECT (res_r == 1, "second reader trylock failed");
+	EXPECT (p_rwlock_reader_unlock (lk), "runlock");
+	EXPECT (!p_rwlock_writer_trylock (lk), "writer trylock granted while the second reader still holds");
+	__atomic_store_n (&w_started, 1, __ATOMIC_SEQ_CST);
+	pthread_join (t, NULL);
+	EXPECT (p_rwlock_writer_trylock (lk), "writer trylock failed on a free lock");
+	EXPECT (p_rwlock_writer_unlock (lk), "wunlock");
+	in_thread (try_both, lk);
+	EXPECT (res_r == 1 && res_w == 1, "trylock failed on a free lock");
+	p_rwlock_free (lk);
+	puts ("ok scenario tryhold");
+	return 0;
+}
+
+static int rd_in, rd_go, rd_fail;
+static void *rd_worker (void *arg) {
+	long i = (long) arg;
+	pboolean ok = (i & 1) ? p_rwlock_reader_trylock (lk) : p_rwlock_reader_lock (lk);
+	if (!ok) __atomic_store_n (&rd_fail, 1, __ATOMIC_SEQ_CST);
+	__atomic_add_fetch (&rd_in, 1, __ATOMIC_SEQ_CST);
+	while (!__atomic_load_n (&rd_go, __ATOMIC_SEQ_CST)) usleep (1000);
+	if (ok && !p_rwlock_reader_unlock (lk)) __atomic_store_n (&rd_fail, 2, __ATOMIC_SEQ_CST);
+	return NULL;
+}
+static int scen_readers (int k) {
+	pthread_t *t = calloc ((size_t) k, sizeof *t);
+	long i;
+	signal (SIGALRM, on_alarm); alarm (30);
+	lk = p_rwlock_new ();
+	EXPECT (lk && t, "new");
+	for (i = 0; i < k; i++) pthread_create (&t[i], NULL, rd_worker, (void *) i);
+	while (__atomic_load_n (&rd_in, __ATOMIC_SEQ_CST) < k) usleep (1000);
+	EXPECT (!rd_fail, "a reader lock / trylock failed while only readers hold");
+	in_thread (try_both, lk);
+	EXPECT (res_w == 0, "writer trylock granted while K readers hold");
+	EXPECT (res_r == 1, "reader trylock failed while K readers hold");
+	__atomic_store_n (&rd_go, 1, __ATOMIC_SEQ_CST);
+	for (i = 0; i < k; i++) pthread_join (t[i], NULL);
+	EXPECT (!rd_fail, "reader unlock failed");
+	EXPECT (p_rwlock_writer_trylock (lk), "writer trylock failed after all K readers released");
+	EXPECT (p_rwlock_writer_unlock (lk), "wunlock");
+	p_rwlock_free (lk);
+	printf ("ok scenario readers %d\n", k);
+	return 0;
+}
+
 int main (int argc, char **argv) {
 	int nt = argc > 1 ? atoi (argv[1]) : 8, i;
+	(void) expect_fail;
 	if (argc > 1 && (!strcmp (argv[1], "rr") || !strcmp (argv[1], "share"))) return scenario (argv[1]);
+	if (argc > 1 && !strcmp (argv[1], "two")) return scen_two ();
+	if (argc > 1 && !strcmp (argv[1], "tryhold")) return scen_tryhold ();
+	if (argc > 1 && !strcmp (argv[1], "readers")) return scen_readers (argc > 2 ? atoi (argv[2]) : 200);
 	unsigned seed = argc > 3 ? (unsigned) atoi (argv[3]) : 1;
 	pthread_t th[64];
 	rounds = argc > 2 ? atoi (argv[2]) : 1000;
